@@ -21,8 +21,15 @@
     paths — `aabb` fold = order-independent join of the event boxes; contains every point of every
       segment; path-level fast ⊇ exact for well-formed event lists.
 
-  `_partial`: `aabb_box_contains_partial` excludes the path whose minimum corner is exactly the
-  sentinel `(f32::MAX, f32::MAX)` (lyon returns the zero box for it).
+    paths (cont.) — `aabb_box_contains`: every point of every segment of every finite path (end
+      points left of the `f32::MAX` start sentinel) is in the box; the empty path gets the zero box
+      (`aabb_empty`);
+    fit — `fit_box` maps the source box into the destination (`fit_box_maps_src_into_dst` for
+      Stretch/Min, `fit_box_stretch` corner to corner, `fit_box_max_covers`,
+      `fit_box_horizontal_vertical`, `fit_box_uniform` aspect, `fit_box_center`), and
+      `fit_path_inside_dst`: every point of the fitted path lies in the destination box;
+    over ℝ — `cubic_box_contains_real` (sqrt laws discharged by `Real.sqrt`); the arc hypotheses
+      are discharged in `Props/C11Real.lean` (`arc_box_contains_real`).
 
   History: four genuine defects of lyon were found by this check (three with machine-checked
   `…_witness` theorems, one pure floating-point cancellation) and repaired upstream-style in /repo:
@@ -31,8 +38,9 @@
   The former witnesses are described in the section comments below; the model mirrors the
   repaired code and the witnesses are replaced by the full-strength statements.
 
-  Not theorems: anything about IEEE rounding (oracle envelope); the ellipse's extremal angles
-  themselves (`tan`/`atan` identities) enter `arc_box_contains` as a hypothesis.
+  Not theorems: anything about IEEE rounding (oracle envelope).  Over an abstract field the
+  ellipse's extremal angles enter `arc_box_contains` as a hypothesis; over ℝ they are proved
+  (`Props/C11Real.lean`).
 -/
 import LyonVerif.Model.Geom.Extrema
 import LyonVerif.Lemmas.Field
@@ -46,6 +54,8 @@ set_option linter.unusedVariables false
 set_option linter.unusedSimpArgs false
 set_option linter.style.haveILetI false
 set_option warn.classDefReducibility false
+
+geom_all Lyon.Fit
 
 namespace Lyon.C11
 
@@ -935,6 +945,139 @@ theorem tri_box (t : Tri K) :
   · exact le_max_right _ _
 
 
+/-- **Tight**: every side of a segment's box passes through an endpoint -/
+theorem seg_box_touched (s : Seg K) :
+    (s.boundingBox.min.x = s.a.x ∨ s.boundingBox.min.x = s.b.x) ∧
+    (s.boundingBox.max.x = s.a.x ∨ s.boundingBox.max.x = s.b.x) ∧
+    (s.boundingBox.min.y = s.a.y ∨ s.boundingBox.min.y = s.b.y) ∧
+    (s.boundingBox.max.y = s.a.y ∨ s.boundingBox.max.y = s.b.y) := by
+  rw [(seg_box s).1]
+  exact ⟨min_choice _ _, max_choice _ _, min_choice _ _, max_choice _ _⟩
+
+/-- **Tight**: every side of a triangle's box passes through a vertex -/
+theorem tri_box_touched (t : Tri K) :
+    (t.boundingBox.min.x = t.a.x ∨ t.boundingBox.min.x = t.b.x ∨ t.boundingBox.min.x = t.c.x) ∧
+    (t.boundingBox.max.x = t.a.x ∨ t.boundingBox.max.x = t.b.x ∨ t.boundingBox.max.x = t.c.x) ∧
+    (t.boundingBox.min.y = t.a.y ∨ t.boundingBox.min.y = t.b.y ∨ t.boundingBox.min.y = t.c.y) ∧
+    (t.boundingBox.max.y = t.a.y ∨ t.boundingBox.max.y = t.b.y ∨ t.boundingBox.max.y = t.c.y) := by
+  rw [(tri_box t).1]
+  have m3 : ∀ a b c : K, min (min a b) c = a ∨ min (min a b) c = b ∨ min (min a b) c = c := by
+    intro a b c
+    rcases min_choice (min a b) c with h | h
+    · rcases min_choice a b with h' | h'
+      · left; rw [h, h']
+      · right; left; rw [h, h']
+    · right; right; exact h
+  have M3 : ∀ a b c : K, max (max a b) c = a ∨ max (max a b) c = b ∨ max (max a b) c = c := by
+    intro a b c
+    rcases max_choice (max a b) c with h | h
+    · rcases max_choice a b with h' | h'
+      · left; rw [h, h']
+      · right; left; rw [h, h']
+    · right; right; exact h
+  exact ⟨m3 _ _ _, M3 _ _ _, m3 _ _ _, M3 _ _ _⟩
+
+
+/-! ## `lyon_algorithms::fit` -/
+
+/-- what `fit_box` does to a point: `(p − src_centre) · scale + dst_centre`, coordinate-wise -/
+theorem fitBox_apply (src dst : Box K) (style : FitStyle) (p : P K) :
+    (Fit.fitBox src dst style).apply p =
+      ⟨(p.x - (src.min.x + src.max.x) / 2) *
+          (Fit.pickScale (Fit.width dst / Fit.width src) (Fit.height dst / Fit.height src) style).x
+          + (dst.min.x + dst.max.x) / 2,
+       (p.y - (src.min.y + src.max.y) / 2) *
+          (Fit.pickScale (Fit.width dst / Fit.width src) (Fit.height dst / Fit.height src) style).y
+          + (dst.min.y + dst.max.y) / 2⟩ := by
+  simp only [Fit.fitBox, Xf.andThen, Xf.translation, Xf.scale, Xf.apply, P.lerp, Scalar.zero, Scalar.one,
+    Scalar.half, sc_zero, sc_one, sc_half]
+  apply P.ext' <;> simp only <;> ring
+
+/-- the source centre goes to the destination centre, for every style -/
+theorem fit_box_center (src dst : Box K) (style : FitStyle) :
+    (Fit.fitBox src dst style).apply ⟨(src.min.x + src.max.x) / 2, (src.min.y + src.max.y) / 2⟩ =
+      ⟨(dst.min.x + dst.max.x) / 2, (dst.min.y + dst.max.y) / 2⟩ := by
+  rw [fitBox_apply]; apply P.ext' <;> simp
+
+/-- the uniform styles preserve the aspect ratio: one scale factor, no shear, no rotation -/
+theorem fit_box_uniform (src dst : Box K) (style : FitStyle) (h : style ≠ .stretch) :
+    (Fit.fitBox src dst style).m11 = (Fit.fitBox src dst style).m22 ∧
+    (Fit.fitBox src dst style).m12 = 0 ∧ (Fit.fitBox src dst style).m21 = 0 := by
+  cases style <;>
+    simp only [Fit.fitBox, Fit.pickScale, Xf.andThen, Xf.translation, Xf.scale, Scalar.zero, Scalar.one,
+      sc_zero, sc_one, ne_eq, not_true_eq_false] at h ⊢ <;>
+    refine ⟨by ring, by ring, by ring⟩
+
+/-- `Stretch` maps the source box onto the destination box, corner to corner -/
+theorem fit_box_stretch (src dst : Box K) (hw : Fit.width src ≠ 0) (hh : Fit.height src ≠ 0) :
+    (Fit.fitBox src dst .stretch).apply src.min = dst.min ∧
+    (Fit.fitBox src dst .stretch).apply src.max = dst.max := by
+  rw [fitBox_apply, fitBox_apply]
+  simp only [Fit.pickScale, Fit.width, Fit.height] at hw hh ⊢
+  constructor <;> apply P.ext' <;> simp only <;> field_simp <;> ring
+
+/-- **`fit_box` maps the source box into the destination box** for the styles `Stretch` and `Min`
+(source of positive width and height, destination not inverted) -/
+theorem fit_box_maps_src_into_dst (src dst : Box K) (style : FitStyle)
+    (hst : style = .stretch ∨ style = .min)
+    (hw : 0 < Fit.width src) (hh : 0 < Fit.height src) (hdw : 0 ≤ Fit.width dst) (hdh : 0 ≤ Fit.height dst)
+    (p : P K) (hp : Box.Contains src p) : Box.Contains dst ((Fit.fitBox src dst style).apply p) := by
+  rw [fitBox_apply]
+  have rx : 0 ≤ Fit.width dst / Fit.width src := div_nonneg hdw (le_of_lt hw)
+  have ry : 0 ≤ Fit.height dst / Fit.height src := div_nonneg hdh (le_of_lt hh)
+  have ex : Fit.width dst / Fit.width src * Fit.width src = Fit.width dst := div_mul_cancel₀ _ (ne_of_gt hw)
+  have ey : Fit.height dst / Fit.height src * Fit.height src = Fit.height dst := div_mul_cancel₀ _ (ne_of_gt hh)
+  -- the chosen scale factors are non-negative and do not exceed the stretch factors
+  have hs : (0 ≤ (Fit.pickScale (Fit.width dst / Fit.width src) (Fit.height dst / Fit.height src) style).x ∧
+      (Fit.pickScale (Fit.width dst / Fit.width src) (Fit.height dst / Fit.height src) style).x ≤ Fit.width dst / Fit.width src) ∧
+      (0 ≤ (Fit.pickScale (Fit.width dst / Fit.width src) (Fit.height dst / Fit.height src) style).y ∧
+      (Fit.pickScale (Fit.width dst / Fit.width src) (Fit.height dst / Fit.height src) style).y ≤ Fit.height dst / Fit.height src) := by
+    rcases hst with rfl | rfl
+    · exact ⟨⟨rx, le_refl _⟩, ⟨ry, le_refl _⟩⟩
+    · simp only [Fit.pickScale, sc_min]
+      exact ⟨⟨le_min rx ry, min_le_left _ _⟩, ⟨le_min rx ry, min_le_right _ _⟩⟩
+  set sx := (Fit.pickScale (Fit.width dst / Fit.width src) (Fit.height dst / Fit.height src) style).x
+  set sy := (Fit.pickScale (Fit.width dst / Fit.width src) (Fit.height dst / Fit.height src) style).y
+  obtain ⟨⟨sx0, sx1⟩, ⟨sy0, sy1⟩⟩ := hs
+  have bx : sx * Fit.width src ≤ Fit.width dst := by
+    have := mul_le_mul_of_nonneg_right sx1 (le_of_lt hw); linarith
+  have by' : sy * Fit.height src ≤ Fit.height dst := by
+    have := mul_le_mul_of_nonneg_right sy1 (le_of_lt hh); linarith
+  simp only [Fit.width, Fit.height] at bx by' hw hh
+  obtain ⟨p1, p2, p3, p4⟩ := hp
+  have a1 := mul_le_mul_of_nonneg_right p1 sx0
+  have a2 := mul_le_mul_of_nonneg_right p2 sx0
+  have a3 := mul_le_mul_of_nonneg_right p3 sy0
+  have a4 := mul_le_mul_of_nonneg_right p4 sy0
+  refine ⟨?_, ?_, ?_, ?_⟩ <;> simp only <;> nlinarith
+
+/-- `Max` covers the destination box: the image of the source box reaches at least as far as the
+destination box on every side -/
+theorem fit_box_max_covers (src dst : Box K) (hw : 0 < Fit.width src) (hh : 0 < Fit.height src) :
+    ((Fit.fitBox src dst .max).apply src.min).x ≤ dst.min.x ∧ dst.max.x ≤ ((Fit.fitBox src dst .max).apply src.max).x ∧
+    ((Fit.fitBox src dst .max).apply src.min).y ≤ dst.min.y ∧ dst.max.y ≤ ((Fit.fitBox src dst .max).apply src.max).y := by
+  rw [fitBox_apply, fitBox_apply]
+  simp only [Fit.pickScale, sc_max]
+  have ex : Fit.width dst / Fit.width src * Fit.width src = Fit.width dst := div_mul_cancel₀ _ (ne_of_gt hw)
+  have ey : Fit.height dst / Fit.height src * Fit.height src = Fit.height dst := div_mul_cancel₀ _ (ne_of_gt hh)
+  have m1 := mul_le_mul_of_nonneg_right (le_max_left (Fit.width dst / Fit.width src) (Fit.height dst / Fit.height src)) (le_of_lt hw)
+  have m2 := mul_le_mul_of_nonneg_right (le_max_right (Fit.width dst / Fit.width src) (Fit.height dst / Fit.height src)) (le_of_lt hh)
+  simp only [Fit.width, Fit.height] at ex ey m1 m2 hw hh ⊢
+  refine ⟨?_, ?_, ?_, ?_⟩ <;> nlinarith
+
+/-- `Horizontal` / `Vertical` match the destination's width resp. height exactly -/
+theorem fit_box_horizontal_vertical (src dst : Box K) (hw : Fit.width src ≠ 0) (hh : Fit.height src ≠ 0) :
+    (((Fit.fitBox src dst .horizontal).apply src.min).x = dst.min.x ∧
+     ((Fit.fitBox src dst .horizontal).apply src.max).x = dst.max.x) ∧
+    (((Fit.fitBox src dst .vertical).apply src.min).y = dst.min.y ∧
+     ((Fit.fitBox src dst .vertical).apply src.max).y = dst.max.y) := by
+  rw [fitBox_apply, fitBox_apply, fitBox_apply, fitBox_apply]
+  simp only [Fit.pickScale, Fit.width, Fit.height] at hw hh ⊢
+  refine ⟨⟨?_, ?_⟩, ⟨?_, ?_⟩⟩ <;> field_simp <;> ring
+
+
+
+
 /-! ## Paths: `lyon_algorithms::aabb` -/
 
 
@@ -961,9 +1104,9 @@ theorem aabb_fold_perm (b0 : Box K) (l1 l2 : List (PEv K)) (h : l1.Perm l2) :
 of the path and every `t ∈ [0,1]` the sampled point lies in `aabb::bounding_box`, and every
 `begin`/`line_to` endpoint does (so every line segment does: boxes are convex).
 Hypothesis `hne`: the accumulated minimum is not the sentinel `(MAX, MAX)` — lyon returns the zero
-box in that case (the empty path; also a path sitting exactly at `f32::MAX`, which is the only
-input excluded: hence `_partial`). -/
-theorem aabb_box_contains_partial (hsq : ∀ d : K, 0 ≤ d → Transc.sqrt d * Transc.sqrt d = d)
+box in that case.  `aabb_box_contains` below discharges `hne` for every path whose coordinates
+are below the sentinel. -/
+theorem aabb_box_contains_of_not_sentinel (hsq : ∀ d : K, 0 ≤ d → Transc.sqrt d * Transc.sqrt d = d)
     (hs0 : ∀ d : K, 0 ≤ d → 0 ≤ Transc.sqrt d) (big : K) (evs : List (PEv K))
     (hne : ¬ ((evs.foldl Aabb.tightStep (Aabb.start big)).min == (⟨big, big⟩ : P K)) = true) :
     (∀ f c p, PEv.quad f c p ∈ evs → ∀ t, 0 ≤ t → t ≤ 1 →
@@ -1087,6 +1230,116 @@ theorem aabb_fast_contains_exact (big : K) (evs : List (PEv K)) (hw : WellFormed
     Box.Inside (evs.foldl Aabb.tightStep (Aabb.start big)) (evs.foldl Aabb.fastStep (Aabb.start big)) :=
   aabb_fast_inv evs _ _ none (inside_refl _) (fun q hq => by cases hq) hw
 
+/-- the point an event ends at -/
+def endPoint : PEv K → Option (P K)
+  | .begin p => some p
+  | .line _ p => some p
+  | .quad _ _ p => some p
+  | .cubic _ _ _ p => some p
+  | .end_ => none
+
+/-- an event's box reaches at least as far left as the event's end point -/
+theorem tightBox_min_le_end (e : PEv K) (x : Box K) (p : P K)
+    (hx : tightBox e = some x) (hp : endPoint e = some p) : x.min.x ≤ p.x := by
+  cases e with
+  | begin q => cases hx; cases hp; exact le_refl _
+  | line f q => cases hx; cases hp; exact le_refl _
+  | end_ => cases hp
+  | quad f c q =>
+    cases hx; cases hp
+    have := (q1_minT f.x c.x p.x).2 1 (by norm_num) (le_refl _)
+    rw [q1_ev1] at this
+    exact this
+  | cubic f c1 c2 q =>
+    cases hx; cases hp
+    have := ((c1_range_partial f.x c1.x c2.x p.x).2.2 1 (Or.inr (Or.inl rfl))).1
+    rw [c1_ev1] at this
+    exact this
+
+/-- **What the code returns for the empty path**: the zero box. -/
+theorem aabb_empty (big : K) :
+    Aabb.boundingBox big [] = ⟨⟨0, 0⟩, ⟨0, 0⟩⟩ ∧ Aabb.fastBoundingBox big [] = ⟨⟨0, 0⟩, ⟨0, 0⟩⟩ := by
+  have h : ((⟨big, big⟩ : P K) == (⟨big, big⟩ : P K)) = true := by
+    show P.beq _ _ = true
+    simp [P.beq, sc_beq]
+  constructor <;>
+    simp only [Aabb.boundingBox, Aabb.fastBoundingBox, List.foldl_nil, Aabb.finish, Aabb.start, h, if_true,
+      Scalar.zero, sc_zero]
+
+/-- a path with a contributing event whose end point is left of `big` does not hit the sentinel test -/
+theorem aabb_not_sentinel (big : K) (evs : List (PEv K)) (e : PEv K) (he : e ∈ evs) (x : Box K) (p : P K)
+    (hx : tightBox e = some x) (hp : endPoint e = some p) (hlt : p.x < big) :
+    ¬ ((evs.foldl Aabb.tightStep (Aabb.start big)).min == (⟨big, big⟩ : P K)) = true := by
+  intro hc
+  have hin : Box.Inside x ((evs.filterMap tightBox).foldl boxJoin (Aabb.start big)) :=
+    (foldl_join_inside _ _).2 x (List.mem_filterMap.2 ⟨e, he, hx⟩)
+  rw [← aabb_fold] at hin
+  have h1 := hin.1
+  have h2 := tightBox_min_le_end e x p hx hp
+  have hb : (evs.foldl Aabb.tightStep (Aabb.start big)).min.x = big := by
+    have : P.beq (evs.foldl Aabb.tightStep (Aabb.start big)).min ⟨big, big⟩ = true := hc
+    simp only [P.beq, Bool.and_eq_true, sc_beq] at this
+    exact this.1
+  linarith
+
+/-- **The path box contains every point of every segment — for every path** whose coordinates
+are below the start sentinel `big` (`f32::MAX` in lyon; `hfin` asks it of the end points only).
+The statement is about paths with at least one event by its form (it speaks of events of the
+path); the empty path gets the zero box (`aabb_empty`). -/
+theorem aabb_box_contains (hsq : ∀ d : K, 0 ≤ d → Transc.sqrt d * Transc.sqrt d = d)
+    (hs0 : ∀ d : K, 0 ≤ d → 0 ≤ Transc.sqrt d) (big : K) (evs : List (PEv K))
+    (hfin : ∀ e ∈ evs, ∀ p, endPoint e = some p → p.x < big) :
+    (∀ f c p, PEv.quad f c p ∈ evs → ∀ t, 0 ≤ t → t ≤ 1 →
+      Box.Contains (Aabb.boundingBox big evs) (Quad.sample ⟨f, c, p⟩ t)) ∧
+    (∀ f c1 c2 p, PEv.cubic f c1 c2 p ∈ evs → ∀ t, 0 ≤ t → t ≤ 1 →
+      Box.Contains (Aabb.boundingBox big evs) (Cubic.sample ⟨f, c1, c2, p⟩ t)) ∧
+    (∀ p, PEv.begin p ∈ evs → Box.Contains (Aabb.boundingBox big evs) p) ∧
+    (∀ f p, PEv.line f p ∈ evs → Box.Contains (Aabb.boundingBox big evs) p) := by
+  refine ⟨?_, ?_, ?_, ?_⟩
+  · intro f c p he
+    exact (aabb_box_contains_of_not_sentinel hsq hs0 big evs
+      (aabb_not_sentinel big evs _ he _ p rfl rfl (hfin _ he p rfl))).1 f c p he
+  · intro f c1 c2 p he
+    exact (aabb_box_contains_of_not_sentinel hsq hs0 big evs
+      (aabb_not_sentinel big evs _ he _ p rfl rfl (hfin _ he p rfl))).2.1 f c1 c2 p he
+  · intro p he
+    exact (aabb_box_contains_of_not_sentinel hsq hs0 big evs
+      (aabb_not_sentinel big evs _ he _ p rfl rfl (hfin _ he p rfl))).2.2.1 p he
+  · intro f p he
+    exact (aabb_box_contains_of_not_sentinel hsq hs0 big evs
+      (aabb_not_sentinel big evs _ he _ p rfl rfl (hfin _ he p rfl))).2.2.2 f p he
+
+
+/-- **`fit_path` puts the whole path inside the destination box** (`Stretch`, `Min`): every event
+of the fitted path is the transformed event, and every point of every fitted segment lies in
+`dst` — the path box contains the source points (`aabb_box_contains`), `fit_box` maps that box
+into `dst`, and an affine map commutes with Bézier evaluation. -/
+theorem fit_path_inside_dst (hsq : ∀ d : K, 0 ≤ d → Transc.sqrt d * Transc.sqrt d = d)
+    (hs0 : ∀ d : K, 0 ≤ d → 0 ≤ Transc.sqrt d) (big : K) (evs : List (PEv K)) (dst : Box K)
+    (style : FitStyle) (hst : style = .stretch ∨ style = .min)
+    (hfin : ∀ e ∈ evs, ∀ p, endPoint e = some p → p.x < big)
+    (hw : 0 < Fit.width (Aabb.boundingBox big evs)) (hh : 0 < Fit.height (Aabb.boundingBox big evs))
+    (hdw : 0 ≤ Fit.width dst) (hdh : 0 ≤ Fit.height dst) :
+    (∀ e ∈ evs, Fit.mapEv (Fit.fitBox (Aabb.boundingBox big evs) dst style) e ∈ Fit.fitPath big evs dst style) ∧
+    (∀ f c p, PEv.quad f c p ∈ evs → ∀ t, 0 ≤ t → t ≤ 1 → Box.Contains dst
+      (((⟨f, c, p⟩ : Quad K).transformed (Fit.fitBox (Aabb.boundingBox big evs) dst style)).sample t)) ∧
+    (∀ f c1 c2 p, PEv.cubic f c1 c2 p ∈ evs → ∀ t, 0 ≤ t → t ≤ 1 → Box.Contains dst
+      (((⟨f, c1, c2, p⟩ : Cubic K).transformed (Fit.fitBox (Aabb.boundingBox big evs) dst style)).sample t)) ∧
+    (∀ p, PEv.begin p ∈ evs → Box.Contains dst ((Fit.fitBox (Aabb.boundingBox big evs) dst style).apply p)) ∧
+    (∀ f p, PEv.line f p ∈ evs → Box.Contains dst ((Fit.fitBox (Aabb.boundingBox big evs) dst style).apply p)) := by
+  obtain ⟨cq, cc, cb, cl⟩ := aabb_box_contains hsq hs0 big evs hfin
+  have into := fit_box_maps_src_into_dst (Aabb.boundingBox big evs) dst style hst hw hh hdw hdh
+  refine ⟨fun e he => List.mem_map_of_mem he, ?_, ?_, fun p he => into p (cb p he), fun f p he => into p (cl f p he)⟩
+  · intro f c p he t h0 h1
+    have e : ((⟨f, c, p⟩ : Quad K).transformed (Fit.fitBox (Aabb.boundingBox big evs) dst style)).sample t =
+        (Fit.fitBox (Aabb.boundingBox big evs) dst style).apply ((⟨f, c, p⟩ : Quad K).sample t) := by geom_ring
+    rw [e]; exact into _ (cq f c p he t h0 h1)
+  · intro f c1 c2 p he t h0 h1
+    have e : ((⟨f, c1, c2, p⟩ : Cubic K).transformed (Fit.fitBox (Aabb.boundingBox big evs) dst style)).sample t =
+        (Fit.fitBox (Aabb.boundingBox big evs) dst style).apply ((⟨f, c1, c2, p⟩ : Cubic K).sample t) := by geom_ring
+    rw [e]; exact into _ (cc f c1 c2 p he t h0 h1)
+
+
 end aabb
 
 
@@ -1153,6 +1406,13 @@ noncomputable def realSqrtTransc : Transc ℝ where
 example : (∀ d : ℝ, 0 ≤ d → realSqrtTransc.sqrt d * realSqrtTransc.sqrt d = d) ∧
     (∀ d : ℝ, 0 ≤ d → 0 ≤ realSqrtTransc.sqrt d) :=
   ⟨fun _ h => Real.mul_self_sqrt h, fun d _ => Real.sqrt_nonneg d⟩
+
+/-- **`cubic_box_contains` over ℝ**: the two `sqrt` laws are discharged by `Real.sqrt`, so the
+exact box of every real cubic contains the curve, with no hypothesis left -/
+theorem cubic_box_contains_real (c : @Cubic ℝ) (t : ℝ) (h0 : 0 ≤ t) (h1 : t ≤ 1) :
+    Box.Contains (@Cubic.boundingBox ℝ _ realSqrtTransc c) (c.sample t) :=
+  @cubic_box_contains ℝ _ _ _ realSqrtTransc (fun _ h => Real.mul_self_sqrt h) (fun d _ => Real.sqrt_nonneg d) c t h0 h1
+
 
 /-- a cubic coordinate whose derivative is not identically zero (side condition of `cubic_critical_roots`) -/
 example : Cubic1.ca (0:ℚ) 3 (-2) 1 ≠ 0 ∨ Cubic1.cb (0:ℚ) 3 (-2) ≠ 0 := by
